@@ -30,6 +30,22 @@ static void ftx_lock() { while (g_ftx_lock.test_and_set(std::memory_order_acquir
 static void ftx_unlock() { g_ftx_lock.clear(std::memory_order_release); }
 
 static const char* g_rng_lo = nullptr; static const char* g_rng_hi = nullptr;
+// Determinism: TBB seeds its victim-selection RNGs from object addresses, so a recorded schedule reproduces an execution only if the address space layout is the
+// same.  Every harness therefore re-executes itself once with address-space randomisation switched off (VERIF_ASLR=1 keeps it on).
+#include <sys/personality.h>
+#include <malloc.h>
+__attribute__((constructor)) static void verif_no_aslr() {
+    if (getenv("VERIF_ASLR")) return;
+    mallopt(M_ARENA_MAX, 1);      // one malloc arena: which arena a thread gets is a real-time race, and heap addresses feed the RNG seeds
+    int p = personality(0xffffffff);
+    if (p == -1 || (p & ADDR_NO_RANDOMIZE)) return;
+    if (personality(p | ADDR_NO_RANDOMIZE) == -1) return;
+    FILE* f = fopen("/proc/self/cmdline", "r"); if (!f) return;
+    static char buf[1 << 16]; size_t n = fread(buf, 1, sizeof buf - 1, f); fclose(f); if (n == 0 || n >= sizeof buf - 1) return;
+    static char* av[1024]; int ac = 0; for (size_t i = 0; i < n && ac < 1023; ) { av[ac++] = buf + i; i += strlen(buf + i) + 1; } av[ac] = nullptr;
+    setenv("VERIF_ASLR_OFF", "1", 1);
+    execv("/proc/self/exe", av);
+}
 void track(const void* a) { if (g_ntracked < 256) g_tracked[g_ntracked++] = a; }
 void track_range(const void* lo, const void* hi) { g_rng_lo = (const char*)lo; g_rng_hi = (const char*)hi; }
 void untrack_all() { g_ntracked = 0; g_rng_lo = g_rng_hi = nullptr; }
@@ -63,7 +79,14 @@ static void apply(const StoreEnt& e) {
     }
 }
 
-Sched::Sched() { if (!g_wake_init) { sem_init(&g_wake, 0, 0); g_wake_init = true; } g_sched = this; }
+// a run that has taken more than soft_steps steps AND more than soft_seconds of real time is cut off as if it had reached its step limit (the step limits are
+// generous, and on a loaded machine a livelocked run would otherwise outlive the watchdog of its process and be lost as a harness failure)
+bool Sched::over_time() {
+    if (steps < soft_steps || (steps & 1023)) return false;
+    timespec ts; clock_gettime(CLOCK_MONOTONIC, &ts); double now = ts.tv_sec + ts.tv_nsec * 1e-9;
+    return now - t_start > soft_seconds;
+}
+Sched::Sched() { { timespec ts; clock_gettime(CLOCK_MONOTONIC, &ts); t_start = ts.tv_sec + ts.tv_nsec * 1e-9; } if (!g_wake_init) { sem_init(&g_wake, 0, 0); g_wake_init = true; } g_sched = this; }
 Sched::~Sched() { if (g_sched == this) g_sched = nullptr; }
 
 void Sched::spawn(int n, std::function<void(int)> body, const std::vector<int>& tso_threads) {
@@ -72,20 +95,26 @@ void Sched::spawn(int n, std::function<void(int)> body, const std::vector<int>& 
     for (int t : tso_threads) { lts[t]->tso = true; verif_tso_active = 1; }
     for (int i = 0; i < n; i++) {
         LT* lt = lts[i];
-        lt->th = std::thread([lt, body] {
+        struct Start { LT* lt; std::function<void(int)> body; };
+        Start* st = new Start{lt, body};
+        pthread_create(&lt->th, nullptr, [](void* p) -> void* {
+            Start* st = (Start*)p; LT* lt = st->lt;
             tls_lt = lt;
             sem_wait(&lt->go);
-            body(lt->id);
+            st->body(lt->id);
             // drain and switch off the store buffer before the clean-up: clean-up code frees objects it has just stored to,
             // and an emulated buffer (unlike a real one) would commit those stores after the free
             for (auto& e : lt->buf) apply(e);
             lt->buf.clear(); lt->tso = false;
             if (thread_exit_hook) thread_exit_hook();
+            delete st;
             lt->pend = {nullptr, K_NONE, 0, 0};
             tls_lt = nullptr;
             lt->state.store(ST_DONE);
             sem_post(&g_wake);
-        });
+            return nullptr;
+        }, st);
+        lt->joinable = true;
         sem_post(&lt->go);     // let it run to its first schedule point
         sem_wait(&g_wake);
     }
@@ -99,15 +128,30 @@ bool Sched::step(int t) {
     LT* lt = lts[t];
     if (lt->state.load() != ST_HOOK) return false;
     unsigned char before[16]; unsigned sz = 0; const void* a = lt->pend.addr;
-    if (a && lt->pend.size <= 16 && lt->pend.kind <= K_CAS) { sz = lt->pend.size; memcpy(before, a, sz); }
+    // (loads are excluded: the word a load reads may be a dead stack slot by the time the thread stops again, and whatever the thread leaves there -
+    //  a time stamp, say - would leak real time into the progress heuristic and make schedules irreproducible)
+    if (a && lt->pend.size <= 16 && lt->pend.kind >= K_STORE && lt->pend.kind <= K_CAS) { sz = lt->pend.size; memcpy(before, a, sz); }
     size_t bufsz = lt->buf.size();
     int prevkind = lt->pend.kind;
     ++steps;
     if (log_schedule) sched_log.push_back(t);
+    static FILE* steplog = getenv("VERIF_STEPLOG") ? fopen(getenv("VERIF_STEPLOG"), "a") : nullptr;   // debugging: one line per granted step
+    if (steplog) fprintf(steplog, "%ld t%d k%d %p\n", steps, t, lt->pend.kind, lt->pend.addr);
     lt->state.store(ST_RUN);
     sem_post(&lt->go);
-    sem_wait(&g_wake);
+    // a step that does not reach its next schedule point (an atomic access, a futex call, the end of the thread) within hang_seconds of real time is a loop
+    // in the code under test that touches no shared variable at all: no other thread could ever end it.  The run is over (RC_HANG); the thread is abandoned.
+    { timespec ts; clock_gettime(CLOCK_REALTIME, &ts); ts.tv_sec += hang_seconds; int r;
+      while ((r = sem_timedwait(&g_wake, &ts)) == -1 && errno == EINTR) { }
+      if (r == -1) { hung = true; return false; } }
     int st = lt->state.load();
+    // determinism: a finished logical thread is joined before anyone else runs (its real exit path frees memory, which would otherwise race with the
+    // allocations of the threads scheduled next and make heap addresses - hence address-seeded RNGs - differ from run to run)
+    // (bounded wait: an exit path that needs a parked logical thread must not wedge the scheduler; such a thread is joined in join_all)
+    if (st == ST_DONE && !lt->daemon && lt->joinable) {
+        timespec ts; clock_gettime(CLOCK_REALTIME, &ts); ts.tv_nsec += 200000000; if (ts.tv_nsec >= 1000000000) { ts.tv_nsec -= 1000000000; ++ts.tv_sec; }
+        if (pthread_timedjoin_np(lt->th, nullptr, &ts) == 0) lt->joinable = false;
+    }
     bool changed = (st != ST_HOOK) || (sz && memcmp(before, a, sz) != 0) || lt->buf.size() != bufsz
                    || prevkind == K_FUTEX_WAKE /* the step just taken may have woken someone */;
     if (changed) last_change = steps;
@@ -150,7 +194,8 @@ int Sched::run_pct(uint64_t seed, long maxsteps, int depth) {
         if (alldone) { rc = RC_OK; break; }
         if (wbuf && (best < 0 || (rng() % 4) == 0)) { for (auto* lt : lts) if (!lt->buf.empty()) { drain_one(lt->id); break; } continue; }
         if (best < 0) { rc = RC_DEADLOCK; break; }
-        if (steps > maxsteps) { rc = RC_STEPLIMIT; break; }
+        if (hung) { rc = RC_HANG; break; }
+        if (steps > maxsteps || over_time()) { rc = RC_STEPLIMIT; break; }
         if (steps - last_change > stall_limit) { rc = RC_STALL; break; }
         long before = last_change;
         // focus-biased change points: right after an access to a tracked (protocol) address the thread is pre-empted with probability 1/3
@@ -184,7 +229,8 @@ int Sched::run_random(uint64_t seed, long maxsteps, int switch_den) {
         if (alldone) return RC_OK;
         if (!wb.empty() && (r.empty() || (rng() % 3) == 0)) { drain_one(wb[rng() % wb.size()]); continue; }
         if (r.empty()) return RC_DEADLOCK;
-        if (steps > maxsteps) return RC_STEPLIMIT;
+        if (hung) return RC_HANG;
+        if (steps > maxsteps || over_time()) return RC_STEPLIMIT;
         if (steps - last_change > stall_limit) return RC_STALL;
         int t;
         bool cur_ok = cur >= 0 && lts[cur]->state.load() == ST_HOOK;
@@ -215,7 +261,8 @@ int Sched::finish(long maxsteps) {
         }
         if (alldone) return RC_OK;
         if (!any) return RC_DEADLOCK;
-        if (steps > maxsteps) return RC_STEPLIMIT;
+        if (hung) return RC_HANG;
+        if (steps > maxsteps || over_time()) return RC_STEPLIMIT;
         if (steps - last_change > stall_limit) return RC_STALL;
     }
 }
@@ -230,22 +277,24 @@ void Sched::settle_daemons(long maxsteps) {
         for (size_t i = 0; i < lts.size(); i++) { LT* lt = lts[i];
             if (!lt->buf.empty()) { while (drain_one(lt->id)) {} }
             if (lt->daemon && lt->state.load() == ST_HOOK) { any = true; step(lt->id); } }
-        if (!any || steps > lim) return;
+        if (!any || steps > lim || hung) return;
     }
 }
 
 void Sched::join_all() {
+    // after a hang the abandoned thread is still running: nothing else can be executed in this process (the harness has already logged the outcome)
+    if (hung) { fflush(nullptr); _exit(3); }
     settle_daemons(2000000);
     for (auto* lt : lts) {
         if (lt->daemon) { if (lt->state.load() != ST_DONE) g_daemons.push_back(lt); continue; }   // a parked worker is adopted by the next run
-        if (lt->state.load() == ST_DONE) { lt->th.join(); sem_destroy(&lt->go); delete lt; }
-        else lt->th.detach();   // stuck run: the thread stays parked for ever (harness exits soon)
+        if (lt->state.load() == ST_DONE) { if (lt->joinable) pthread_join(lt->th, nullptr); sem_destroy(&lt->go); delete lt; }
+        else pthread_detach(lt->th);   // stuck run: the thread stays parked for ever (harness exits soon)
     }
     lts.clear();
     verif_tso_active = 0;
 }
 
-std::string rc_name(int rc) { switch (rc) { case 0: return "ok"; case 1: return "deadlock"; case 2: return "steplimit"; case 3: return "stall"; } return "?"; }
+std::string rc_name(int rc) { switch (rc) { case 0: return "ok"; case 1: return "deadlock"; case 2: return "steplimit"; case 3: return "stall"; case 4: return "hang"; } return "?"; }
 } // namespace cosched
 
 using namespace cosched;
